@@ -238,6 +238,12 @@ func c03Spec(d c03Dims, cfg int) idp.ResponseSpec {
 		case 6:
 			// a minute ahead, written with a fraction and a -08:00 offset (the local time reads earlier): conforming
 			a.SCDNotOnOrAfter = world.T0.Add(time.Minute).In(time.FixedZone("", -8*3600)).Format("2006-01-02T15:04:05.000000-07:00")
+		case 8:
+			// the instant Go's zero time.Time denotes: expired for two thousand years
+			a.SCDNotOnOrAfter = "0001-01-01T00:00:00Z"
+		case 9:
+			// the same instant written with an offset
+			a.SCDNotOnOrAfter = "0001-01-01T05:30:00+05:30"
 		case 7:
 			// a complete timestamp followed by junk after the fraction
 			a.SCDNotOnOrAfter = world.T0.Add(time.Hour).UTC().Format("2006-01-02T15:04:05") + ".soon"
@@ -311,7 +317,7 @@ func c03Model(d c03Dims, cfg int) []c03Viol {
 			v = append(v, c03Viol{pos + "Recipient", []string{"Recipient"}, []string{"ErrInvalidValue", "ErrMissingElement"}})
 		}
 		switch a[3] {
-		case 1, 4, 5:
+		case 1, 4, 5, 8, 9:
 			v = append(v, c03Viol{pos + "NotOnOrAfter reached", []string{"NotOnOrAfter"}, []string{"ErrInvalidValue"}})
 		case 2:
 			v = append(v, c03Viol{pos + "NotOnOrAfter absent", []string{"NotOnOrAfter"}, []string{"ErrMissingElement"}})
@@ -593,8 +599,8 @@ func c03Cases(thorough bool, stop func() bool) (cases []c03Case, shapes int, bou
 		}
 	}
 	// deadlines written with fractions and zone offsets, on one assertion and on either of two
-	for nooa := 5; nooa <= 7; nooa++ {
-		for n := 1; n <= 2; n++ {
+	for nooa := 5; nooa <= 9; nooa++ {
+		for n := 1; n <= 3; n++ {
 			for at := 0; at < n; at++ {
 				d := c03Dims{N: n}
 				for i := 0; i < n; i++ {
@@ -621,7 +627,7 @@ func c03Cases(thorough bool, stop func() bool) (cases []c03Case, shapes int, bou
 }
 
 func c03Run(r *mc.Run) {
-	r.Rule = "deviation-bounded DFS over profile-fault dimensions (Response: version, destination, issuer, status; per assertion position: issuer, subject structure, recipient, NotOnOrAfter; every compared URL also in 7 spellings a URL library would call the same URL, one at a time; the bearer deadline also written with a fraction and a zone offset, reached and not, and as a timestamp followed by junk) for n=0..3 assertions x 10 configurations (Response-signed, assertion-signed, skip-signature, each with and without a configured IdP issuer; Response- and assertion-signed with every assertion encrypted; skip-signature with every assertion encrypted, where nothing is decrypted and the Response must be rejected for having no assertion, with and without a configured issuer) (the first three configurations also with declarations of unused namespace prefixes named like the checked attributes, holding the expected values, added after signing, to messages with prefixed names and to messages that use default namespaces only, there also with the root start tag left alone) x 3 entry points (ValidateEncodedResponse, RetrieveAssertionInfo, and the exported Validate on a types.Response the caller decoded with encoding/xml), each case judged on fresh instances and again, in sequence on one goroutine, on long-lived instances (one per configuration); non-trivial = the document got past decoding and signature processing into the profile validation (error is nil or a typed validation error); distinct = distinct (dims,cfg)"
+	r.Rule = "deviation-bounded DFS over profile-fault dimensions (Response: version, destination, issuer, status; per assertion position: issuer, subject structure, recipient, NotOnOrAfter; every compared URL also in 7 spellings a URL library would call the same URL, one at a time; the bearer deadline also written with a fraction and a zone offset, reached and not, as a timestamp followed by junk, and as the year-1 instant that is Go's zero time, at every position of up to three assertions) for n=0..3 assertions x 10 configurations (Response-signed, assertion-signed, skip-signature, each with and without a configured IdP issuer; Response- and assertion-signed with every assertion encrypted; skip-signature with every assertion encrypted, where nothing is decrypted and the Response must be rejected for having no assertion, with and without a configured issuer) (the first three configurations also with declarations of unused namespace prefixes named like the checked attributes, holding the expected values, added after signing, to messages with prefixed names and to messages that use default namespaces only, there also with the root start tag left alone) x 3 entry points (ValidateEncodedResponse, RetrieveAssertionInfo, and the exported Validate on a types.Response the caller decoded with encoding/xml), each case judged on fresh instances and again, in sequence on one goroutine, on long-lived instances (one per configuration); non-trivial = the document got past decoding and signature processing into the profile validation (error is nil or a typed validation error); distinct = distinct (dims,cfg)"
 	cases, shapes, bounds, complete := c03Cases(r.Thorough(), r.Expired)
 	if !complete {
 		r.Cap("enumeration stopped by deadline")
